@@ -6,7 +6,6 @@ sys.path.insert(0, os.path.dirname(os.path.dirname(os.path.abspath(__file__))))
 ALL = ['C%02d' % i for i in range(1, 21)]
 
 NA = {
-    'C12': 'liveness and resource release over every goroutine schedule with real listeners: the deciding variable is the schedule; a single-goroutine SSA-to-SMT encoding has no scheduler/happens-before model (DESIGN §4)',
     'C15': 'data-race freedom is a happens-before property over schedules; no single-goroutine assertion is equivalent and the engine has no scheduler (DESIGN §4)',
     'C18': 'the generator is encoding/xml + regexp + text/template + file I/O + the Go compiler over XML documents: not a bounded computation over integers/arrays that can be encoded (DESIGN §4)',
 }
